@@ -1279,6 +1279,11 @@ func (sw *storageWriter) ChangeKey(k Key) error {
 			return err
 		}
 		if oldExists {
+			// (the new key's directories need not exist yet: a file is there when an entry is being refreshed)
+			err = createAllSubdirs(filepath.Dir(newPath))
+			if err != nil {
+				return err
+			}
 			err = os.Rename(sw.path, newPath)
 			if err != nil {
 				return err
